@@ -51,6 +51,7 @@ def build_streams(rng, tier):
         Stream("corpus", corpus_lines(PID), h, **kw),
         Stream("exhaustive-small", exhaustive_small_lines(), h, **kw),
         Stream("structured+random", lines, h, **kw),
+        history_stream("C01", rng, tier),
     ]
 
 RULE = ("collections from the structured generator (random dense/sparse, canonical stars by census realised as Pauli strings, "
